@@ -192,6 +192,12 @@ func checkUnmarshalJSON(w *eng.W, s string) {
 		}
 		if err != nil || !ref.SameValue(V(u), V(p)) {
 			w.R.Fail(eng.Case{Op: "UnmarshalJSON", Args: []string{s}, Got: fmt.Sprint(V(u), " err=", err), Want: "what Parse produces: " + V(p).String()})
+		} else if l, ok := ref.ParseLit(s); ok && l.Class == ref.Fin {
+			// "the same Decimal Parse would produce" is also read as what Parse is specified to produce (C05): the
+			// correctly rounded value of the numeral, so that a defect shared by both entry points is not invisible here
+			if want, rng := litWant(l, 0); !rng && !ref.SameValue(V(u), want) {
+				w.R.Fail(eng.Case{Op: "UnmarshalJSON", Args: []string{s}, Got: V(u).String(), Want: "the correctly rounded value of the numeral: " + want.String()})
+			}
 		}
 	default:
 		// lenient acceptance: a plain numeral Parse accepts without underscores / special names (e.g. +1, .5, 1., 01) and the empty input are not judged
@@ -234,7 +240,7 @@ func C13(r *eng.Run) {
 		"UnmarshalJSON conformance with the reference grammar: every byte string up to length N over the alphabet {0,1,9,.,e,E,+,-,_,n,u,l,\",[,t} (accept/reject vs the grammar, accepted values equal Parse), the structured numerals of C05 restricted to JSON syntax, null leaves the receiver untouched, JSON non-numbers through encoding/json give errors. " +
 		"states = strings judged against the grammar automaton, transitions = calls; non-trivial = everything but short positive integers."
 	r.Assumptions = []string{"binary codec is the identity on bits (checked at start; decided by C12)", "inputs that are plain numerals but not JSON numbers (+1, .5, 1., 01, empty) are not judged: the property only demands errors for non-numbers",
-		"Parse itself is decided by C05"}
+		"accepted JSON numbers are compared with Parse of the same text and, in range, with the correctly rounded value of the numeral (what Parse is specified to produce, C05), under the default rounding mode"}
 	if !CodecSanity(r) {
 		return
 	}
